@@ -104,3 +104,34 @@ fn slot_flag_stack_fill() {
     assert!(matches!(&r, Expr::Object(o) if slot_flag_of(&o.props) == Some(2.0)), "C13: the slot with the bound identifier child carries `_` = 2");
     std::mem::forget(r); std::mem::forget(children); std::mem::forget(v);
 }
+
+/// wrap_children (C03): written children become the lazily evaluated `default` slot; `v-slots` entries are merged beside it
+/// (object literal: its entries, in order; any other expression: spread); `_` only under optimize.
+fn wrap<const SLOTS: u8>() {
+    let opts = any_options();
+    let optimize = opts.optimize;
+    let v = visitor(opts);
+    let elems = vec![el(opaque(1))];
+    let kv = PropOrSpread::Prop(Box::new(Prop::KeyValue(KeyValueProp { key: PropName::Ident(idn("foo")), value: opaque(2) })));
+    let slots: Option<Box<Expr>> = match SLOTS { 0 => None, 1 => Some(Box::new(Expr::Object(ObjectLit { span: sp(3), props: vec![kv] }))), _ => Some(opaque(3)) };
+    let dynamic: bool = kani::any();
+    let r = v.wrap_children(elems, if dynamic { SlotFlag::Dynamic } else { SlotFlag::Stable }, slots);
+    match &r {
+        Expr::Object(o) => {
+            assert!(prop_key_str(&o.props[0]) == Some("default") && matches!(default_slot_elems(&o.props), Some(e) if e.len() == 1 && matches!(&e[0], Some(x) if is_opaque(&x.expr, 1))), "C03: children become the `default` slot function returning them");
+            let n_extra = match SLOTS { 0 => 0, _ => 1 };
+            assert!(o.props.len() == 1 + n_extra + (optimize as usize), "C03: exactly default + v-slots entries (+ `_` under optimize)");
+            match SLOTS {
+                1 => assert!(matches!(find_prop(&o.props, "foo"), Some(e) if is_opaque(e, 2)), "C03: object-literal v-slots entries are merged beside default"),
+                2 => assert!(matches!(&o.props[1], PropOrSpread::Spread(s) if is_opaque(&s.expr, 3)), "C03: a v-slots expression is spread beside default"),
+                _ => {}
+            }
+            let flag = slot_flag_of(&o.props);
+            assert!(flag == if optimize { Some(if dynamic { 2.0 } else { 1.0 }) } else { None }, "C13: `_` carries the slot flag (1 or 2), only under optimize");
+        }
+        _ => assert!(false, "C03: wrap_children yields a slots object"),
+    }
+    std::mem::forget(r); std::mem::forget(v);
+}
+macro_rules! wr_h { ($($n:ident: $k:expr;)*) => { $(#[kani::proof] #[kani::unwind(4)] #[kani::stub(std::ptr::drop_in_place, no_drop)] #[kani::stub(core::ptr::drop_glue, no_glue)] #[kani::stub(alloc::fmt::format, fmt_marker)] fn $n() { wrap::<$k>() })* } }
+wr_h! { wrap_no_slots: 0; wrap_object_slots: 1; wrap_expr_slots: 2; }
